@@ -119,7 +119,7 @@ ASSUMPTIONS = [
     "run-time context, its second sentence names 'the name it derived (MakeFilename fields)'.  The check reads them "
     "together: MakeFilename may write strings it formats from the static context it saw into context.output.{prefix, "
     "suffix, filename, dirname, fileext} and nothing else (theorem mkfCall_frame; oracle 2a: with these five keys erased "
-    "the flow equals the flow of the tree in which no MakeFilename was handed static context).",
+    "the flow equals the flow of the tree in which every MakeFilename was handed the same keys with other values).",
     "JUDGEMENT (degenerate Splits): `Split([])` and a Split all of whose branches are bare fill/compute elements have no "
     "branch context to intersect; lena.context.intersection() of nothing is {}, so they export {} and ERASE the static "
     "context for what follows (Sequence(SetContext('a',1), Split([]), StoreContext()): the store sees {}), although "
@@ -837,6 +837,10 @@ def _fresh_names(tree, ref):
     return out
 
 
+def _sentinel(d):
+    return {k: _sentinel(v) if isinstance(v, dict) else "\u00a7" for k, v in d.items()}
+
+
 def _neutral_run(tree, ref, make_flow, seed_mkf=True):
     """the no-leak reference run: the same tree with its SetContext elements replaced by inert ones (every static context is empty),
     in which each UpdateContextFromStatic and MakeFilename is handed, by hand, the reference prefix fold of its
@@ -850,8 +854,12 @@ def _neutral_run(tree, ref, make_flow, seed_mkf=True):
     objs = []
     top = build(t2, objs)
     for i2, (nd, o) in enumerate(zip(preorder(t2), objs)):
-        if nd["k"] == "ucfs" or (nd["k"] == "mkf" and seed_mkf):
+        if nd["k"] in ("ucfs", "mkf"):
             seen = ref.exp[i2]["seen"]
+            if nd["k"] == "mkf" and not seed_mkf:
+                # the same keys, every scalar replaced: whatever MakeFilename formats is another string, everything
+                # else it does (which methods can be formatted, whether a bare value gets a context) is the same
+                seen = _sentinel(seen)
             if seen:
                 o._set_context(copy.deepcopy(seen))
     gen = top() if tree["kind"] == "Source" else top.run(make_flow())
@@ -1064,13 +1072,13 @@ def oracle(case, res):
                     f"(static context leaked or was lost)")
     # (2a) frame of MakeFilename: what it derives from static context reaches the run-time contexts only as
     # output.prefix / suffix / filename / dirname / fileext — with those keys erased, the flow is the one of the tree
-    # in which no MakeFilename was handed any static context
+    # in which every MakeFilename was handed a static context with the same keys and other scalar values
     if got is not None and res.get("neutral0") is not None and "r" in got and "r" in res["neutral0"]:
         a, b = _erase_names(got["r"]), _erase_names(res["neutral0"]["r"])
         if a != b:
             return (f"run-time result {got['r']}: outside output.prefix/suffix/filename/dirname/fileext it differs from "
-                    f"{res['neutral0']['r']}, the result when no MakeFilename is handed static context (static context "
-                    f"leaked through MakeFilename)")
+                    f"{res['neutral0']['r']}, the result when every MakeFilename is handed a static context with the same "
+                    f"keys and other values (static context leaked through MakeFilename)")
     # (2b) run-time values never leak back: after the run every element holds what it held before
     if res.get("nodes_after") is not None:
         for idx, (node, before, aft) in enumerate(zip(nodes, recs, res["nodes_after"])):
